@@ -1,0 +1,16 @@
+//go:build verif
+// +build verif
+
+package rpc
+
+// VerifLocksFree reports, for the model-based verification harness (/verif),
+// whether the connection mutex can be acquired right now and whether the
+// sender lock is free.  Read-only; compiled only with -tags verif.
+func (c *Conn) VerifLocksFree() (muFree bool, senderFree bool) {
+	if !c.mu.TryLock() {
+		return false, false
+	}
+	senderFree = c.sendCond == nil
+	c.mu.Unlock()
+	return true, senderFree
+}
